@@ -225,6 +225,85 @@ def login_histories(run, rng, thorough):
                 pc.safe_disconnect(conn)
 
 
+def concurrent_keys(run, rng, thorough):
+    """Several connections of one process log in to servers with different
+    keys at the same time: every (token, secret) pair must be recoverable by
+    the holder of the key it was encrypted for - during the concurrent phase
+    (line-level yield injection in encryption.py) and in the sequential calls
+    that follow it."""
+    import threading
+    from cryptography.hazmat.primitives import serialization
+    from cryptography.hazmat.primitives.asymmetric import rsa
+    from minecraft.networking import encryption
+    from ..probes.linemon import LineMonitor
+    keys = []
+    for bits in (1024, 2048, 1024):
+        key = rsa.generate_private_key(public_exponent=65537, key_size=bits)
+        der = key.public_key().public_bytes(
+            serialization.Encoding.DER,
+            serialization.PublicFormat.SubjectPublicKeyInfo)
+        nums = key.private_numbers()
+        keys.append((der, nums.public_numbers.n, nums.d, bits // 8))
+    results = []           # (key index, token, secret, et, es, phase)
+    lock = threading.Lock()
+
+    def worker(t, n, phase):
+        r = __import__('random').Random(t * 7919 + 1)
+        for j in range(n):
+            ki = (t + j) % len(keys) if phase == 'concurrent' else j % 3
+            token, secret = r.randbytes(4), r.randbytes(16)
+            try:
+                et, es = encryption.encrypt_token_and_secret(keys[ki][0],
+                                                             token, secret)
+            except Exception as e:
+                et, es = e, None
+            with lock:
+                results.append((ki, token, secret, et, es, phase))
+    rounds = 12 if thorough else 3
+    for rnd in range(rounds):
+        if not run.mine(rnd):
+            continue
+        with LineMonitor(files=['minecraft/networking/encryption.py'],
+                         yield_prob=0.5, seed=rng.getrandbits(32)) as mon:
+            ts = [threading.Thread(target=worker, args=(t, 6, 'concurrent'))
+                  for t in range(3)]
+            for t in ts:
+                t.start()
+            for t in ts:
+                t.join(60.0)
+            run.count('concurrent_keys.yields', mon.yields)
+        worker(9, 6, 'sequential-after')
+    for ki, token, secret, et, es, phase in results:
+        run.count('concurrent_keys.handovers')
+        der, n, d, klen = keys[ki]
+        if isinstance(et, Exception):
+            run.violation('rsa/concurrent-keys/raised', 'encrypt_token_and_'
+                          'secret raised while several keys were in use',
+                          {'phase': phase, 'error': repr(et)})
+            break
+        bad = None
+        for label, c, exp in (('token', et, token), ('secret', es, secret)):
+            if len(c) != klen:
+                bad = (label, 'ciphertext of %d bytes for a %d-byte key'
+                       % (len(c), klen))
+                break
+            em = pow(int.from_bytes(c, 'big'), d, n).to_bytes(klen, 'big')
+            try:
+                m = pkcs1_v15_unpad(em)
+            except Exception:
+                m = None
+            if m != exp:
+                bad = (label, 'not recoverable with the key it was meant for')
+                break
+        if bad:
+            run.violation('rsa/concurrent-keys/wrong-key', 'with logins to '
+                          'servers with different keys in one process, a '
+                          'token/secret was encrypted under another server\'s'
+                          ' key', {'phase': phase, 'what': bad,
+                                   'key_bytes': klen})
+            break
+
+
 def run(run):
     from minecraft.networking import encryption
     from cryptography.hazmat.primitives.asymmetric import rsa
@@ -351,6 +430,25 @@ def run(run):
     if len(set(secrets)) != len(secrets):
         run.violation('secret/freshness', 'shared secrets repeat',
                       {'distinct': len(set(secrets))})
+    # ... whatever the application has done to the interpreter's shared
+    # pseudo-random generators (a program that seeds `random` for
+    # reproducibility must still get a fresh secret per login)
+    import random as _random
+    st = _random.getstate()
+    try:
+        reseeded = []
+        for k in range(40):
+            _random.seed(1234 + k % 2)
+            reseeded.append(encryption.generate_shared_secret())
+    finally:
+        _random.setstate(st)
+    run.count('secrets_generated_after_reseeding', len(reseeded))
+    if len(set(reseeded)) != len(reseeded):
+        run.violation('secret/freshness/follows-global-random-state', 'the '
+                      'shared secret repeats when the application re-seeds '
+                      'the global `random` generator', {
+                          'distinct': len(set(reseeded)), 'of': len(reseeded)})
+    concurrent_keys(run, rng, thorough)
 
     # RSA hand-over
     for bits in (1024, 2048):
@@ -396,3 +494,4 @@ def run(run):
     run.require('bytes_encrypted', 1000)
     run.require('bytes_decrypted', 1000)
     run.require('rsa_handovers', 2)
+    run.require('concurrent_keys.handovers', 10)
